@@ -22,10 +22,53 @@ def programs(seed, n, nops):
     return out
 
 
+def ingest_race(args):
+    """a writer arrives while a bulk ingestion holds the journal lock (held at ingest.finish.locked): whatever order the two
+    take effect in, the content right before the close and after the reopen must be the same, and the writer's
+    acknowledged write to a key the ingestion does not touch must be there"""
+    from common import run_fjv
+    mode, wkind, pre = args
+    L = ["open %s" % mode, "ks h0 alpha", "ks h1 beta", "put h0 61 01", "put h1 71 11"]
+    if pre == "flushed":
+        L += ["rotate h0", "drain"]
+    L += ["pausepoint ingest.finish.locked 1 hold", "thread i ingest h0 62=02 63=03 &", "waitpause ingest.finish.locked"]
+    w = {"put": "put h0 64 04", "put_same": "put h0 62 0f", "del": "del h0 61", "batch": "batch - h0:p:64:04 h1:p:72:12",
+         "tx": "wtx t1", "other": "put h1 72 12"}[wkind]
+    if wkind == "tx":
+        L += ["thread w tx t1 begin", "thread w tx t1 put h0 64 04", "thread w tx t1 commit &"]
+    else:
+        L += ["thread w %s &" % w]
+    L += ["sleep 250", "release ingest.finish.locked", "sleep 350", "put h1 73 13", "dump", "reopen", "dump", "reopen", "dump"]
+    prog = "\n".join(L) + "\n"
+    o, raw, rc = run_fjv(prog, env_extra={"FJV_SYNC_TIMEOUT_MS": "5000"}, timeout=60)
+    n = len(L)
+    before, after, after2 = o.get(n - 4), o.get(n - 2), o.get(n)
+    problems = []
+    if before is None or "{" not in (before or ""):
+        problems.append("schedule did not complete: %r" % (raw[-300:],))
+    elif before != after or after != after2:
+        problems.append("content before close %s, after reopen %s, after second reopen %s" % (before, after, after2))
+    else:
+        need = {"put": "64=04", "batch": "64=04", "tx": "64=04", "other": "72=12"}.get(wkind)
+        if need and need not in before:
+            problems.append("acknowledged write %s missing: %s" % (need, before))
+        if "63=03" not in before:
+            problems.append("ingested data missing: %s" % before)
+    return dict(prog=prog, problems=problems)
+
+
 def run(rep, tier, seed, build):
+    from common import pmap
     n, nops = (240, 40) if tier == "quick" else (5000, 100)
     progs = programs(seed, n, nops)
     res = run_seq(rep, progs)
+    races = [(m, w, pre) for m in ("plain", "sw", "occ") for w in ("put", "put_same", "del", "batch", "tx", "other")
+             for pre in ("mem", "flushed") if not (m == "plain" and w == "tx")]
+    if tier == "quick":
+        races = [x for i, x in enumerate(races) if (i + seed) % 3 == 0 or x[:2] == ("plain", "put")]
+    rr = pmap(ingest_race, races, workers=8)
+    for x in [x for x in rr if x["problems"]][:2]:
+        rep.violation("# C04: writer racing with a bulk ingestion that holds the journal lock: %s\n%s" % (x["problems"][0], x["prog"]))
     st = res["stats"]
     rep.coverage = dict(programs=st["programs"], disagreements_checked=st["disagreements_checked"],
                         evaluations=st["ops"], distinct_nontrivial=res["distinct"],
@@ -34,11 +77,20 @@ def run(rep, tier, seed, build):
                              "(scans + point reads) at the end; compared between implementation, model(as_is), oracle(ideal); "
                              "non-trivial = >= 4 distinct operation kinds, distinct by operation-kind sequence",
                         samples=[progs[0].splitlines()[:14]], op_histogram=dict(res["ophist"]),
-                        known_finding_programs=st["known_finding_programs"],
+                        known_finding_programs=st["known_finding_programs"], ingest_race_schedules=len(rr),
                         correspondence_failures=st.get("correspondence_failures", 0))
 
 
 def replay(rep, path, build):
     prog = "".join(l for l in open(path) if not l.startswith("#"))
+    if "pausepoint" in prog:
+        from common import run_fjv
+        o, raw, rc = run_fjv(prog, env_extra={"FJV_SYNC_TIMEOUT_MS": "5000"}, timeout=60)
+        n = len(prog.splitlines())
+        if not (o.get(n) and o.get(n) == o.get(n - 2) == o.get(n - 4)):
+            rep.violation("# C04: content before close %s, after reopen %s, after second reopen %s\n%s"
+                          % (o.get(n - 4), o.get(n - 2), o.get(n), prog))
+        rep.coverage = dict(programs=1, disagreements_checked=len(rep.violations), samples=[prog.splitlines()[:10]])
+        return
     run_seq(rep, [prog], shrink=False)
     rep.coverage = dict(programs=1, disagreements_checked=len(rep.violations), samples=[prog.splitlines()[:10]])
